@@ -1,54 +1,61 @@
 (* Executions of Ops.v and the one-cell machine: the frame of every
-   micro-operation, the semantic growth step, and the run-level invariant over
-   SyncMono.steps.  (AtomicBridge.v is used as delivered.)
+   micro-operation, the semantic growth step, and the run-level invariant from
+   init_exec.  (AtomicBridge.v is used as delivered, apart from the weaker
+   i_key1 of AtomicCoRR.v.)
+
+   HEADLINE.  [run_goodAt]: forall p pa a, if a is a declared atomic
+   (get_atomic (init_exec p pa) a = Some _) and RunOK p pa a, then along every
+   execution  steps (init_exec p pa) e  the atomic a still exists and
+   GoodS (atomic a, pclocks e) -- the machine's full invariant of
+   AtomicClosure.v -- holds ([GoodAt a e]).  Corollaries in every reachable
+   state: [run_atomicity] (every live RMW store is strictly mo-after its live
+   source, no live store strictly between), [run_never_none] (assert_ne!
+   cannot fire), [run_atomic_exists].
+   [RunOK p pa a]: at every access micro-operation on a executed in a state
+   reachable from init_exec, [SideOK] holds:
+     (i)   the index replayed by choose_store is a candidate (exploration-level
+           fact; automatic while the path is being extended);
+     (ii)  the ring of a is not full (at_cnt < MAX_ATOMIC_HISTORY);
+     (iii) vle (t_rel t0) (t_caus t0) for the accessing thread -- an invariant
+           of executions (t_rel is only ever set to a snapshot of t_caus), NOT
+           proved here (it needs a thread-side pass over all micro-operations);
+     (iv)  the accessing thread's index is < MAX_THREADS (the thread-count
+           bound of spawn; not proved here either).
 
    PROVED (closed under the global context):
-   1. The frame.  [acore s s']: same stores, count and mutating flag (all the
-      machine's invariant talks about); [akeep a e e']: atomic a exists in e'
-      with the same core.  [exec_micro_akeep] / [exec_micro_akeep_ok]: EVERY
-      micro-operation m with ~ acc_on a m (scheduling incl. MBranch / park /
-      yield, every operation on mutexes, rwlocks, condvars, notifies, channels,
-      arcs, cells, allocations, OTHER atomics, fences, spawn, termination ...)
-      keeps the core of a (only at_last_loads / at_last_nonload, the DPOR
-      bookkeeping written by sched_note, may change).  One tactic over all 77
-      micro-operations, cloned from NotifyFacts.nkeep.
+   1. The frame.  [acore s s']: same stores, count and mutating flag;
+      [akeep a e e']; [exec_micro_akeep] / [exec_micro_akeep_ok]: EVERY
+      micro-operation m with ~ acc_on a m (scheduling, every operation on other
+      objects and other atomics, fences, spawn, termination ...) keeps the core
+      of a (only the DPOR bookkeeping written by sched_note may change).  One
+      tactic over all 77 micro-operations, cloned from NotifyFacts.nkeep.
       [acc_on a m]: MLoadPost / MFuLoadPost / MStorePost / MRmwPost /
       MUnsyncLoad / MWithMut / MBoLoad / MBsLoad on a.
    2. BGrowTo.  [growto_goodS]: GoodS survives ANY change of the clock list
-      that grows pointwise and stays bounded (clock_u[t] <= clock_t[t]);
-      [acore_goodS]; [pclocks e] = the clocks padded to MAX_THREADS entries
-      (caus_of e u, vv_new for unspawned threads: spawn is then an ordinary
-      growth step); [exec_growto]: ClockFacts.clock_wf of the target state and
-      SyncMono's clock monotonicity give exactly such a step.
-      [frame_step_goodS]: a non-access micro-operation preserves
-      "GoodS (atomic a, pclocks)".
-   3. [bstep_reclock], [access_step_padded]: an access step of the generalised
-      machine only looks at the accessing thread's clock, so the *_is_step
-      lemmas of AtomicBridge.v (stated on map t_caus threads) hold on pclocks.
-   4. Runs.  [GoodAt a e]: atomic a exists in e and GoodS (it, pclocks e).
-      [step_goodAt], [steps_goodAt]: along SyncMono.steps (with clock_wf and
-      track_ok, both invariants of executions) GoodAt is preserved, under
-      [AccSide a]; [steps_atomicity] (RMW atomicity) and [steps_never_none]
-      (assert_ne! cannot fire) in every such state.
+      that grows pointwise and stays bounded; [acore_goodS]; [pclocks e] = the
+      clocks padded to MAX_THREADS entries (spawn is an ordinary growth step);
+      [exec_growto]: clock_wf of the target and SyncMono's clock monotonicity
+      give exactly such a step; [frame_step_goodS].
+   3. [bstep_reclock], [access_step_padded]: an access step only looks at the
+      accessing thread's clock.
+   4. [step_goodAt], [steps_goodAt] (abstract form with [AccSide]),
+      [steps_atomicity], [steps_never_none].
+   5. The start.  [init_goodAt]: every declared atomic satisfies the invariant
+      in init_exec (Check.create_object creates it with the all-zero clock: the
+      initial store is the bottom store allowed by the weakened i_key1);
+      ClockFacts.init_clock_wf and SyncMono.init_exec_track_ok give the rest.
+   6. The access micro-operations.  [load_call_is_step_nn],
+      [MLoadPost_is_step_nn], [MFuLoadPost_is_step_nn], [load_post_is_step]
+      (the polls of block_on); [acc_step_is_bstep]: all EIGHT access
+      micro-operations are steps of the generalised machine under [SideOK].
+   7. [steps_goodAt_from], [run_goodAt], [run_atomicity], [run_never_none],
+      [run_atomic_exists].
 
-   HYPOTHESES THAT REMAIN (stated, not proved):
-   - [AccSide a]: every access micro-operation on a is a step of the
-     generalised machine on (atomic a, map t_caus threads).  AtomicBridge's
-     MLoadPost_is_step, MFuLoadPost_is_step, MStorePost_is_step,
-     MRmwPost_is_step, MUnsyncLoad_is_step, MWithMut_is_step prove this for the
-     six plain accesses from: the index replayed by choose_store is a
-     candidate; t_rel <= t_caus (NOT proved here: it needs its own pass over
-     all micro-operations on the thread side); the ring is not full.  The polls
-     of block_on (MBoLoad / MBsLoad, via load_post) have no *_is_step lemma yet.
-   - the START: GoodAt a (init_exec p pa) is NOT provable with the invariant as
-     it stands: Check.create_object creates every declared atomic with the
-     all-zero clock (atomic_new 0 vv_new vv_new v), so the initial store has
-     key 0, whereas InvO requires key >= 1 (i_key1; the machine's own start
-     uses clock [1;0;0;0;0]).  Repair: weaken i_key1 to "key >= 1 or the store
-     is the bottom store (mo all zero)" in AtomicCoRR.v -- the bottom store can
-     only be read by a thread that has seen no other store, so it is never
-     raised.  [steps_goodAt] therefore takes GoodAt a e as a hypothesis on the
-     first state. *)
+   NOT DONE: (iii) and (iv) as invariants; the coherence statements over steps
+   (an mo edge between live stores is never lost along an execution; a thread
+   that knows store j never again reads a store that was mo-before j): they
+   need steps-level versions of AtomicBridge.brun_stable / brun_knows, by the
+   same induction as [steps_goodAt_from]. *)
 Require Import LV.Base LV.VV LV.VVFacts LV.Path LV.PathSpec LV.PathApi LV.Prog LV.Objects
                LV.Exec LV.Atomic LV.Ops LV.Check LV.SyncFacts LV.ExecFacts LV.SyncMono LV.NotifyFacts
                LV.ClockFacts LV.AtomicFacts LV.AtomicCoherence LV.AtomicCoRR LV.AtomicClosure LV.AtomicBridge.
@@ -717,6 +724,332 @@ Proof.
   apply (@Good_never_none (s, pclocks e) (GoodS_Good HG)).
 Qed.
 
+
+(* ================================================================== *)
+(* 5. The start: init_exec                                              *)
+(* ================================================================== *)
+
+Lemma caus_of_init : forall p pa j, caus_of (init_exec p pa) j = vv_new.
+Proof.
+  intros p pa j. unfold caus_of, get_thread, init_exec. cbn [e_threads].
+  destruct j as [|j]; cbn [nth_error]; [reflexivity | destruct j; reflexivity].
+Qed.
+
+Lemma create_objects_atomic : forall ds c r os a s,
+  create_objects ds c r = inl os -> nth_error os a = Some (OAtomic s) ->
+  exists v, atomic_new 0 c r v = inl s.
+Proof.
+  induction ds as [|d ds IH]; intros c r os a s Hc Hn.
+  - cbn in Hc. inversion Hc. subst os. destruct a; discriminate.
+  - cbn [create_objects] in Hc.
+    destruct (create_object d c r) as [o|p] eqn:Ho; [|discriminate].
+    destruct (create_objects ds c r) as [os'|p] eqn:Hos; [|discriminate].
+    inversion Hc. subst os. destruct a as [|a]; cbn [nth_error] in Hn.
+    + inversion Hn. subst o. destruct d as [v0| | | | | | | | | ]; cbn [create_object] in Ho; try discriminate.
+      destruct (atomic_new 0 c r v0) as [s0|p] eqn:Hn0; [|discriminate].
+      inversion Ho. subst s0. exists v0. exact Hn0.
+    + apply (IH c r os' a s Hos Hn).
+Qed.
+
+(* every declared atomic satisfies the invariant in the initial state *)
+Theorem init_goodAt : forall p pa a s,
+  get_atomic (init_exec p pa) a = Some s -> GoodAt a (init_exec p pa).
+Proof.
+  intros p pa a s Hs. exists s. split; [exact Hs|].
+  apply get_atomic_nth in Hs. unfold init_exec in Hs. cbn [e_objects] in Hs.
+  destruct (create_objects (p_decls p) vv_new vv_new) as [os|pn] eqn:Hc;
+    [|destruct a; discriminate].
+  destruct (create_objects_atomic _ _ _ _ _ _ Hc Hs) as (v & Hv).
+  rewrite atomic_new_eq in Hv. inversion Hv. subst s.
+  apply atomic_new_goodS.
+  - rewrite pclocks_length. unfold MAX_THREADS. lia.
+  - rewrite pclocks_length. apply le_n.
+  - rewrite clk_pclocks by (unfold MAX_THREADS; lia). apply caus_of_init.
+  - right. intros q. apply vv_new_get.
+  - intros t Ht. rewrite pclocks_length in Ht. rewrite clk_pclocks by exact Ht.
+    rewrite caus_of_init. unfold vv_new. rewrite repeat_length. exact Ht.
+  - intros u t Hu Ht. rewrite pclocks_length in Hu, Ht. rewrite !clk_pclocks by assumption.
+    rewrite !caus_of_init, !vv_new_get. apply le_n.
+Qed.
+
+(* ================================================================== *)
+(* 6. The access micro-operations, from hypotheses about the run         *)
+(* ================================================================== *)
+
+(* variants of AtomicBridge's load lemmas that only need "assert_ne! does not
+   fire" instead of the invariant on the unpadded clocks *)
+Theorem load_call_is_step_nn : forall s cs t ly o l idx s' c' val,
+  (forall t c ly o, match_load_to_stores s t c ly o <> None) -> t < length cs ->
+  match_load_to_stores s t (vv_inc (clk cs t) t) ly o = Some l -> In idx l ->
+  atomic_load s t (vv_inc (clk cs t) t) idx o = inl (s', c', val) ->
+  mstep RModel (s, cs) t (XLoad idx o) = Some (s', list_set cs t c').
+Proof.
+  intros s cs t ly o l idx s' c' val HG Ht Hl Hin Hload.
+  unfold mstep. destruct (Nat.ltb_spec t (length cs)) as [_|H]; [|lia]. cbn [negb].
+  destruct (match_load_to_stores s t (vv_inc (clk cs t) t) None o) as [l0|] eqn:Hl0.
+  - rewrite (@In_existsb_eqb idx l0 (@candidates_ly s t (vv_inc (clk cs t) t) ly o l l0 idx Hl Hl0 Hin)).
+    rewrite atomic_load_g_model, Hload. reflexivity.
+  - exfalso. apply (HG t (vv_inc (clk cs t) t) None o). exact Hl0.
+Qed.
+
+Theorem MLoadPost_is_step_nn : forall e me a o aw e' t0 s,
+  get_thread e me = Some t0 -> get_atomic e a = Some s ->
+  (forall t c ly o, match_load_to_stores s t c ly o <> None) ->
+  (forall e2 idx l,
+     choose_store (causality_inc e me)
+       (match_load_to_stores s me (vv_inc (t_caus t0) me) (t_last_yield t0) o) = (e2, inl idx) ->
+     match_load_to_stores s me (vv_inc (t_caus t0) me) (t_last_yield t0) o = Some l -> In idx l) ->
+  exec_micro e me (MLoadPost a o aw) = MOk e' ->
+  exists s' idx, get_atomic e' a = Some s' /\
+                 bstep (s, clocks e) me (BOp (XLoad idx o)) = Some (s', clocks e').
+Proof.
+  intros e me a o aw e' t0 s Hth Hat HG Hcand Hex.
+  cbn [exec_micro] in Hex. cbv zeta in Hex.
+  rewrite (@mb_at1 e me a s Hat), (@mb_th1 e me t0 Hth) in Hex. cbn [t_caus th_set_caus t_last_yield] in Hex.
+  set (c := vv_inc (t_caus t0) me) in *.
+  set (seed := match_load_to_stores s me c (t_last_yield t0) o) in *.
+  destruct (choose_store (causality_inc e me) seed) as [e2 [idx|p]] eqn:Hch; [|discriminate].
+  destruct (@AtomicBridge.choose_store_frame _ _ _ _ Hch) as [Ht2 Ho2].
+  destruct (atomic_load s me c idx o) as [[[s' c'] val]|p] eqn:Hld; [|discriminate].
+  destruct (@mb_final e me a t0 s Hth Hat e2 seed s' c' (or_intror I) Ht2 Ho2) as [Hcl Hga].
+  pose proof (@mb_me e me t0 Hth) as Hme. pose proof (@mb_clk e me t0 Hth) as Hck.
+  assert (Hl : exists l, seed = Some l).
+  { destruct seed as [l|] eqn:Hs; [exists l; reflexivity|].
+    exfalso. apply (HG me c (t_last_yield t0) o). exact Hs. }
+  destruct Hl as [l Hl].
+  assert (Hin : In idx l) by (apply (Hcand e2 idx l eq_refl Hl)).
+  assert (Hstep : mstep RModel (s, clocks e) me (XLoad idx o) = Some (s', list_set (clocks e) me c')).
+  { apply (@load_call_is_step_nn s (clocks e) me (t_last_yield t0) o l idx s' c' val HG Hme).
+    - rewrite Hck. exact Hl.
+    - exact Hin.
+    - rewrite Hck. exact Hld. }
+  exists s', idx. cbn [bstep]. rewrite Hstep.
+  set (e3 := set_caus (upd_object e2 a (fun _ => OAtomic s')) me c') in *.
+  destruct aw as [want|].
+  - destruct (N.eqb val want); inversion Hex as [He'].
+    + rewrite ga_log_op, clocks_log_op. split; [exact Hga | rewrite Hcl; reflexivity].
+    + rewrite ga_push_cont, clocks_push_cont, ga_log_op, clocks_log_op.
+      split; [exact Hga | rewrite Hcl; reflexivity].
+  - inversion Hex as [He']. rewrite ga_log_op, clocks_log_op. split; [exact Hga | rewrite Hcl; reflexivity].
+Qed.
+
+Theorem MFuLoadPost_is_step_nn : forall e me a f v so fo e' t0 s,
+  get_thread e me = Some t0 -> get_atomic e a = Some s ->
+  (forall t c ly o, match_load_to_stores s t c ly o <> None) ->
+  (forall e2 idx l,
+     choose_store (causality_inc e me)
+       (match_load_to_stores s me (vv_inc (t_caus t0) me) (t_last_yield t0) fo) = (e2, inl idx) ->
+     match_load_to_stores s me (vv_inc (t_caus t0) me) (t_last_yield t0) fo = Some l -> In idx l) ->
+  exec_micro e me (MFuLoadPost a f v so fo) = MOk e' ->
+  exists s' idx, get_atomic e' a = Some s' /\
+                 bstep (s, clocks e) me (BOp (XLoad idx fo)) = Some (s', clocks e').
+Proof.
+  intros e me a f v so fo e' t0 s Hth Hat HG Hcand Hex.
+  cbn [exec_micro] in Hex. cbv zeta in Hex.
+  rewrite (@mb_at1 e me a s Hat), (@mb_th1 e me t0 Hth) in Hex. cbn [t_caus th_set_caus t_last_yield] in Hex.
+  set (c := vv_inc (t_caus t0) me) in *.
+  set (seed := match_load_to_stores s me c (t_last_yield t0) fo) in *.
+  destruct (choose_store (causality_inc e me) seed) as [e2 [idx|p]] eqn:Hch; [|discriminate].
+  destruct (@AtomicBridge.choose_store_frame _ _ _ _ Hch) as [Ht2 Ho2].
+  destruct (atomic_load s me c idx fo) as [[[s' c'] val]|p] eqn:Hld; [|discriminate].
+  destruct (@mb_final e me a t0 s Hth Hat e2 seed s' c' (or_intror I) Ht2 Ho2) as [Hcl Hga].
+  pose proof (@mb_me e me t0 Hth) as Hme. pose proof (@mb_clk e me t0 Hth) as Hck.
+  assert (Hl : exists l, seed = Some l).
+  { destruct seed as [l|] eqn:Hs; [exists l; reflexivity|].
+    exfalso. apply (HG me c (t_last_yield t0) fo). exact Hs. }
+  destruct Hl as [l Hl].
+  assert (Hin : In idx l) by (apply (Hcand e2 idx l eq_refl Hl)).
+  assert (Hstep : mstep RModel (s, clocks e) me (XLoad idx fo) = Some (s', list_set (clocks e) me c')).
+  { apply (@load_call_is_step_nn s (clocks e) me (t_last_yield t0) fo l idx s' c' val HG Hme).
+    - rewrite Hck. exact Hl.
+    - exact Hin.
+    - rewrite Hck. exact Hld. }
+  exists s', idx. cbn [bstep]. rewrite Hstep.
+  inversion Hex as [He']. rewrite ga_push_cont, clocks_push_cont.
+  split; [exact Hga | rewrite Hcl; reflexivity].
+Qed.
+
+(* load_post (the polls of block_on) *)
+Theorem load_post_is_step : forall e me a o e' x t0 s,
+  get_thread e me = Some t0 -> get_atomic e a = Some s ->
+  (forall t c ly o, match_load_to_stores s t c ly o <> None) ->
+  (forall e2 idx l,
+     choose_store (causality_inc e me)
+       (match_load_to_stores s me (vv_inc (t_caus t0) me) (t_last_yield t0) o) = (e2, inl idx) ->
+     match_load_to_stores s me (vv_inc (t_caus t0) me) (t_last_yield t0) o = Some l -> In idx l) ->
+  load_post e me a o = inl (e', x) ->
+  exists s' idx, get_atomic e' a = Some s' /\
+                 bstep (s, clocks e) me (BOp (XLoad idx o)) = Some (s', clocks e').
+Proof.
+  intros e me a o e' x t0 s Hth Hat HG Hcand Hex.
+  unfold load_post in Hex. cbv zeta in Hex.
+  rewrite (@mb_at1 e me a s Hat), (@mb_th1 e me t0 Hth) in Hex. cbn [t_caus th_set_caus t_last_yield] in Hex.
+  set (c := vv_inc (t_caus t0) me) in *.
+  set (seed := match_load_to_stores s me c (t_last_yield t0) o) in *.
+  destruct (choose_store (causality_inc e me) seed) as [e2 [idx|p]] eqn:Hch; [|discriminate].
+  destruct (@AtomicBridge.choose_store_frame _ _ _ _ Hch) as [Ht2 Ho2].
+  destruct (atomic_load s me c idx o) as [[[s' c'] val]|p] eqn:Hld; [|discriminate].
+  destruct (@mb_final e me a t0 s Hth Hat e2 seed s' c' (or_intror I) Ht2 Ho2) as [Hcl Hga].
+  pose proof (@mb_me e me t0 Hth) as Hme. pose proof (@mb_clk e me t0 Hth) as Hck.
+  assert (Hl : exists l, seed = Some l).
+  { destruct seed as [l|] eqn:Hs; [exists l; reflexivity|].
+    exfalso. apply (HG me c (t_last_yield t0) o). exact Hs. }
+  destruct Hl as [l Hl].
+  assert (Hin : In idx l) by (apply (Hcand e2 idx l eq_refl Hl)).
+  assert (Hstep : mstep RModel (s, clocks e) me (XLoad idx o) = Some (s', list_set (clocks e) me c')).
+  { apply (@load_call_is_step_nn s (clocks e) me (t_last_yield t0) o l idx s' c' val HG Hme).
+    - rewrite Hck. exact Hl.
+    - exact Hin.
+    - rewrite Hck. exact Hld. }
+  exists s', idx. cbn [bstep]. rewrite Hstep.
+  inversion Hex as [[He' Hx]]. split; [exact Hga | rewrite Hcl; reflexivity].
+Qed.
+
+(* what is assumed, at an access micro-operation of thread me on a in state e *)
+Definition SideOK (a : nat) (e : exec) (me : nat) : Prop :=
+  me < MAX_THREADS /\
+  (forall t0, get_thread e me = Some t0 -> vle (t_rel t0) (t_caus t0)) /\
+  (forall s, get_atomic e a = Some s -> at_cnt s < MAX_ATOMIC_HISTORY) /\
+  (forall seed e2 idx l,
+     choose_store (causality_inc e me) seed = (e2, inl idx) -> seed = Some l -> In idx l).
+
+(* all eight access micro-operations are steps of the generalised machine *)
+Theorem acc_step_is_bstep : forall a e me m e1 s t0,
+  acc_on a m -> get_thread e me = Some t0 -> get_atomic e a = Some s ->
+  GoodS (s, pclocks e) -> SideOK a e me -> exec_micro e me m = MOk e1 ->
+  exists s1 b, access_bop b /\ me < length (clocks e) /\
+               get_atomic e1 a = Some s1 /\
+               bstep (s, clocks e) me b = Some (s1, clocks e1).
+Proof.
+  intros a e me m e1 s t0 Hacc Hth Hat HG (HmeT & Hrel & Hring & Hrep) Hx.
+  destruct (@Good_never_none (s, pclocks e) (GoodS_Good HG)) as [Hnn Hnr]. cbn [fst] in Hnn, Hnr.
+  pose proof (@mb_me e me t0 Hth) as Hme.
+  pose proof (Hrel t0 Hth) as Hrel0. pose proof (Hring s Hat) as Hroom.
+  destruct m; cbn [acc_on] in Hacc; try contradiction; subst.
+  - (* MLoadPost *)
+    destruct (@MLoadPost_is_step_nn e me a o aw e1 t0 s Hth Hat Hnn
+                (fun e2 idx l H1 H2 => Hrep _ e2 idx l H1 H2) Hx) as (s1 & idx & H1 & H2).
+    exists s1, (BOp (XLoad idx o)). repeat split; first [assumption | exact I].
+  - (* MFuLoadPost *)
+    destruct (@MFuLoadPost_is_step_nn e me a f v so fo e1 t0 s Hth Hat Hnn
+                (fun e2 idx l H1 H2 => Hrep _ e2 idx l H1 H2) Hx) as (s1 & idx & H1 & H2).
+    exists s1, (BOp (XLoad idx fo)). repeat split; first [assumption | exact I].
+  - (* MStorePost *)
+    destruct (@MStorePost_is_step e me a v o e1 t0 s Hth Hat Hroom Hrel0 Hx) as (s1 & H1 & H2).
+    exists s1, (BStoreR (t_rel t0) v o). repeat split; first [assumption | exact I].
+  - (* MRmwPost *)
+    destruct (@MRmwPost_is_step e me a k so fo e1 t0 s Hth Hat Hroom Hrel0
+                (fun e2 idx l H1 H2 => Hrep _ e2 idx l H1 H2) Hnr Hx) as (s1 & idx & H1 & H2).
+    exists s1, (BRmwR (t_rel t0) idx (rmw_fun k) so fo). repeat split; first [assumption | exact I].
+  - (* MUnsyncLoad *)
+    destruct (@MUnsyncLoad_is_step e me a e1 t0 s Hth Hat Hx) as (s1 & H1 & H2).
+    exists s1, BUnsyncLoad. repeat split; first [assumption | exact I].
+  - (* MWithMut *)
+    destruct (@MWithMut_is_step e me a v e1 t0 s Hth Hat Hx) as (s1 & H1 & H2).
+    exists s1, (BWithMut v). repeat split; first [assumption | exact I].
+  - (* MBoLoad *)
+    cbn [exec_micro] in Hx.
+    destruct (load_post e me a Acquire) as [[e2 x]|[e2 p]] eqn:Hlp; [|discriminate].
+    destruct (@load_post_is_step e me a Acquire e2 x t0 s Hth Hat Hnn
+                (fun e3 idx l H1 H2 => Hrep _ e3 idx l H1 H2) Hlp) as (s1 & idx & H1 & H2).
+    exists s1, (BOp (XLoad idx Acquire)).
+    assert (He : get_atomic e1 a = get_atomic e2 a /\ clocks e1 = clocks e2).
+    { destruct (N.eqb x v); [|destruct first]; inversion Hx; split;
+        first [apply ga_push_cont | apply clocks_push_cont]. }
+    destruct He as [He1 He2]. rewrite He1, He2. repeat split; first [assumption | exact I].
+  - (* MBsLoad *)
+    cbn [exec_micro] in Hx.
+    destruct (load_post e me a Acquire) as [[e2 x]|[e2 p]] eqn:Hlp; [|discriminate].
+    destruct (@load_post_is_step e me a Acquire e2 x t0 s Hth Hat Hnn
+                (fun e3 idx l H1 H2 => Hrep _ e3 idx l H1 H2) Hlp) as (s1 & idx & H1 & H2).
+    exists s1, (BOp (XLoad idx Acquire)).
+    assert (He : get_atomic e1 a = get_atomic e2 a /\ clocks e1 = clocks e2).
+    { destruct (N.eqb x v); inversion Hx; split;
+        first [apply ga_push_cont | apply clocks_push_cont]. }
+    destruct He as [He1 He2]. rewrite He1, He2. repeat split; first [assumption | exact I].
+Qed.
+
+(* ================================================================== *)
+(* 7. The headline: executions from init_exec                           *)
+(* ================================================================== *)
+
+(* the hypotheses about the run: at every access micro-operation on a,
+   executed in a state reachable from init_exec, SideOK holds *)
+Definition RunOK (p : prog) (pa : path) (a : nat) : Prop :=
+  forall e me t m rest,
+    steps (init_exec p pa) e -> e_active e = Some me ->
+    nth_error (e_threads e) me = Some t -> t_cont t = m :: rest -> acc_on a m ->
+    SideOK a (upd_thread e me (fun t => th_set_cont t rest)) me.
+
+Lemma steps_goodAt_from : forall p pa a, RunOK p pa a ->
+  forall e e', steps e e' -> steps (init_exec p pa) e -> clock_wf e -> track_ok e ->
+  GoodAt a e -> GoodAt a e' /\ clock_wf e' /\ track_ok e'.
+Proof.
+  intros p pa a Hok e e' H.
+  induction H as [e|e me t m rest e1 e2 Hact Ht Hc Hx Hs IH]; intros Hreach Hcw Htr HG.
+  - split; [exact HG|]. split; assumption.
+  - destruct (pop_cont_wf e me rest Hcw Htr) as [Hcw0 Htr0].
+    destruct (pop_cont_frame e me rest) as [Hp0 Hg0].
+    set (e0 := upd_thread e me (fun t => th_set_cont t rest)) in *.
+    assert (HG0 : GoodAt a e0).
+    { destruct HG as (s & Hs0 & HGs). exists s. split; [rewrite Hg0; exact Hs0 | rewrite Hp0; exact HGs]. }
+    assert (Hreach1 : steps (init_exec p pa) e1).
+    { eapply steps_trans; [exact Hreach|]. eapply steps_step; [exact Hact|exact Ht|exact Hc|exact Hx|apply steps_refl]. }
+    apply IH; [exact Hreach1 | apply (exec_micro_clock_wf_ok _ me m e1 Hcw0 Hx)
+               | apply (exec_micro_track_ok _ me m e1 Htr0 Hx) |].
+    destruct HG0 as (s & Hs0 & HGs).
+    destruct (acc_on_dec a m) as [Ha|Hna].
+    + assert (Hth0 : get_thread e0 me = Some (th_set_cont t rest)).
+      { unfold e0. rewrite get_thread_upd_thread_same. unfold get_thread. rewrite Ht. reflexivity. }
+      pose proof (Hok e me t m rest Hreach Hact Ht Hc Ha) as Hside. fold e0 in Hside.
+      destruct (acc_step_is_bstep a e0 me m e1 s _ Ha Hth0 Hs0 HGs Hside Hx)
+        as (s1 & b & Hb & Hme & Hs1 & Hstep).
+      exists s1. split; [exact Hs1|].
+      pose proof (access_step_padded e0 e1 me b s s1 Hb (proj1 Hside) Hme Hstep) as Hp.
+      apply (@bstep_goodS (s, pclocks e0) me b (s1, pclocks e1) HGs Hp).
+    + destruct (frame_step_goodS a e0 me m e1 s Htr0 Hcw0 Hna Hx Hs0 HGs) as (s' & Hs' & _ & HG').
+      exists s'. split; assumption.
+Qed.
+
+(* HEADLINE: along every execution from init_exec, every declared atomic
+   satisfies the machine's full invariant *)
+Theorem run_goodAt : forall p pa a s0 e,
+  get_atomic (init_exec p pa) a = Some s0 -> RunOK p pa a ->
+  steps (init_exec p pa) e -> GoodAt a e.
+Proof.
+  intros p pa a s0 e Hs0 Hok H.
+  apply (steps_goodAt_from p pa a Hok (init_exec p pa) e H (steps_refl _)
+           (init_clock_wf p pa) (init_exec_track_ok p pa) (init_goodAt p pa a s0 Hs0)).
+Qed.
+
+Theorem run_atomicity : forall p pa a s0 e s r sl sid,
+  get_atomic (init_exec p pa) a = Some s0 -> RunOK p pa a -> steps (init_exec p pa) e ->
+  get_atomic e a = Some s -> r < at_cnt s -> st_rmw_src (get_store s r) = Some (sl, sid) ->
+  sl < at_cnt s /\ vv_lt (mo s sl) (mo s r) = true /\
+  forall x, x < at_cnt s -> vv_lt (mo s sl) (mo s x) && vv_lt (mo s x) (mo s r) = false.
+Proof.
+  intros p pa a s0 e s r sl sid Hs0 Hok H Hs Hr Hsrc.
+  apply (steps_atomicity a e s r sl sid (run_goodAt p pa a s0 e Hs0 Hok H) Hs Hr Hsrc).
+Qed.
+
+Theorem run_never_none : forall p pa a s0 e s,
+  get_atomic (init_exec p pa) a = Some s0 -> RunOK p pa a -> steps (init_exec p pa) e ->
+  get_atomic e a = Some s ->
+  (forall t c ly o, match_load_to_stores s t c ly o <> None) /\ match_rmw_to_stores s <> None.
+Proof.
+  intros p pa a s0 e s Hs0 Hok H Hs.
+  apply (steps_never_none a e s (run_goodAt p pa a s0 e Hs0 Hok H) Hs).
+Qed.
+
+(* the declared atomic stays where it is *)
+Theorem run_atomic_exists : forall p pa a s0 e,
+  get_atomic (init_exec p pa) a = Some s0 -> RunOK p pa a -> steps (init_exec p pa) e ->
+  exists s, get_atomic e a = Some s.
+Proof.
+  intros p pa a s0 e Hs0 Hok H. destruct (run_goodAt p pa a s0 e Hs0 Hok H) as (s & Hs & _).
+  exists s. exact Hs.
+Qed.
+
 Print Assumptions exec_micro_akeep.
 Print Assumptions growto_goodS.
 Print Assumptions exec_growto.
@@ -726,3 +1059,9 @@ Print Assumptions step_goodAt.
 Print Assumptions steps_goodAt.
 Print Assumptions steps_atomicity.
 Print Assumptions steps_never_none.
+Print Assumptions init_goodAt.
+Print Assumptions load_post_is_step.
+Print Assumptions acc_step_is_bstep.
+Print Assumptions run_goodAt.
+Print Assumptions run_atomicity.
+Print Assumptions run_never_none.
